@@ -250,6 +250,8 @@ func (sc *c24Sched) runnable(th *c24Thread) bool {
 	switch th.label {
 	case "so:lock", "tick:lock":
 		return sc.rp.VerifLockFree()
+	case "scale:lock":
+		return sc.rp.VerifScalingFree()
 	case "get:wait", "scale:shrink-recv":
 		return n > 0 || sc.closed
 	case "get:failsend", "sweep:send", "scale:grow-send":
@@ -294,6 +296,7 @@ func (sc *c24Sched) stepThread(th *c24Thread, timeout bool) bool {
 		if sc.closed && (label == "scale:grow-send" || label == "scale:close") {
 			th.ev = map[string]string{"scale:grow-send": "panic-send-closed", "scale:close": "panic-close-closed"}[label]
 			th.label, th.done = "dead", true
+			sc.rp.VerifFreeScaling() // what the deferred Release of the panicking ScaleCapacity would do
 			return true
 		}
 	}
@@ -459,7 +462,11 @@ func (sc *c24Sched) unwind() {
 	sc.free = true
 	sc.mu.Unlock()
 	pending := 0
+	parkedChild := false
 	for _, th := range sc.threads {
+		if th.child && !th.done {
+			parkedChild = true
+		}
 		if th.done || th.child {
 			continue
 		}
@@ -485,6 +492,9 @@ func (sc *c24Sched) unwind() {
 		}
 		if !sc.rp.VerifUnblock() {
 			sc.rp.VerifDrain()
+		}
+		if parkedChild {
+			sc.rp.VerifFreeScaling() // a parked goroutine of the pool may hold the semaphore others wait for
 		}
 		time.Sleep(200 * time.Microsecond)
 	}
@@ -570,7 +580,7 @@ func genC24(g *core.Gen) {
 		return s
 	}
 	pools := [][2]int{{1, 1}, {1, 2}, {2, 2}, {1, 3}, {2, 3}, {3, 3}}
-	n := g.Scale(2500, 12000)
+	n := g.Scale(2200, 12000)
 	for i := 0; i < n; i++ {
 		pc := core.Pick(g, pools)
 		capacity, maxCap := pc[0], pc[1]
@@ -640,28 +650,135 @@ func genC24(g *core.Gen) {
 		tail := [][]string{
 			{"=5!", "=0!", "=1!", "=2!", "=3!", "=4!", "=5!", "=6!", "=2!", "=2!", "=3!", "=4!", "=3!", "=4!", "=5!", "=6!"},
 			{"=0!", "=1!", "=2!", "=2!", "=5!", "=3!", "=4!", "=5!", "=6!", "=3!", "=4!", "=2!"},
-			{"=4!", "=3!", "=5", "=5", "=5", "=2!", "=0!", "=4!", "=1!", "=2!", "=3!", "=5!", "=6!", "=4!", "=3!", "=2!"},
-			{"=5", "=5", "=5", "=4!", "=4!", "=0!", "=4!", "=3!", "=1!", "=2!", "=2!", "=5!", "=6!", "=3!", "=4!"},
+			{"=4!", "=3!", "=5", "=5", "=5", "=5", "=2!", "=0!", "=4!", "=1!", "=2!", "=3!", "=5!", "=6!", "=4!", "=3!", "=2!"},
+			{"=5", "=5", "=5", "=5", "=4!", "=4!", "=0!", "=4!", "=3!", "=1!", "=2!", "=2!", "=5!", "=6!", "=3!", "=4!"},
 		}
 		s = append(s, tail[r.order%len(tail)]...)
 		tag := "race-" + strings.Trim(strings.Fields(r.x[len(r.x)-1])[0], "()") + "-vs-" + strings.Trim(strings.Fields(r.y[len(r.y)-1])[0], "()")
 		g.Emit(c24Case(r.pool[0], r.pool[1], r.dyn, r.expire, progs, s), "race", tag)
 	}
 	if g.Tier == "quick" {
-		for i := 0; i < 1500; i++ {
+		for i := 0; i < 1300; i++ {
 			pc := core.Pick(g, pools)
 			emitRace(race{pool: pc, dyn: g.Intn(4) != 0, x: core.Pick(g, c24Admin), y: core.Pick(g, c24Admin),
-				a: g.Intn(14), b: g.Intn(10), order: g.Intn(4), expire: g.Intn(4) == 0, holders: g.Intn(3),
+				a: g.Intn(16), b: g.Intn(11), order: g.Intn(4), expire: g.Intn(4) == 0, holders: g.Intn(3),
 				thirdGet: core.Pick(g, []string{"(get 0)", "(get 0)", "(get 3)"})})
 		}
 	} else {
 		for _, pc := range [][2]int{{1, 2}, {2, 2}, {2, 3}} {
 			for xi, x := range c24Admin {
 				for _, y := range [][]string{{"sweep"}, {"close"}, {"age", "tick"}, {"(setcap 2)"}, {"(scale 1)"}} {
-					for a := 0; a <= 12; a++ {
+					for a := 0; a <= 14; a++ {
 						for b := 0; b <= 6; b += 2 {
 							emitRace(race{pool: pc, dyn: true, x: x, y: y, a: a, b: b, order: (a + b + xi) % 4,
 								expire: (a+xi)%3 == 0, holders: pc[0], thirdGet: "(get 0)"})
+						}
+					}
+				}
+			}
+		}
+	}
+	// family 4: the scaling semaphore. Clients hold `holders` resources; a shrinking capacity change (x) is
+	// advanced to its wait for a slot; a second capacity change (y: grow, shrink, close, scale-in) and a
+	// Get that would scale out meet the taken semaphore at every one of their step points; then the
+	// resources come back in one of a few orders and everything finishes.
+	{
+		shr := [][]string{{"(scale 1)"}, {"age", "tick"}, {"close"}, {"(scale 0)"}, {"(scale 2)"}}
+		other := [][]string{{"(scale 3)"}, {"(setcap 3)"}, {"(scale 1)"}, {"close"}, {"age", "tick"}, {"(scale 2)"}, {"(setcap 2)"}, {"sweep"}}
+		emitSem := func(pc [2]int, x, y []string, b, c, order int, expire bool) {
+			var holder []string
+			for h := 0; h < pc[1]; h++ {
+				holder = append(holder, "(get 0)")
+			}
+			for h := 0; h < pc[1]; h++ {
+				holder = append(holder, "put")
+			}
+			progs := [][]string{holder, {"(get 0)", "put"}, x, y}
+			var s []string
+			for h := 0; h < pc[1]; h++ { // client 0 takes every slot up to the maximum (scale-outs included)
+				s = append(s, "=0!")
+			}
+			for range x {
+				s = append(s, "=2!") // x up to its wait (a tick: its goroutine is thread 4)
+			}
+			s = append(s, "=4!")
+			for j := 0; j < b; j++ {
+				s = append(s, "=3")
+			}
+			for j := 0; j < c; j++ {
+				s = append(s, "=1")
+			}
+			tails := [][]string{
+				{"=0!", "=2!", "=4!", "=3!", "=1!", "=0!", "=3!", "=5!", "=0!", "=2!", "=3!", "=4!", "=5!", "=1!", "=1!", "=3!", "=3!"},
+				{"=3!", "=1!", "=0!", "=1!", "=0!", "=2!", "=4!", "=0!", "=3!", "=5!", "=1!", "=3!", "=2!", "=4!", "=5!", "=3!", "=1!"},
+				{"=0!", "=0!", "=0!", "=1!", "=3!", "=2!", "=4!", "=3!", "=5!", "=1!", "=3!", "=2!", "=1!"},
+			}
+			s = append(s, tails[order%len(tails)]...)
+			g.Emit(c24Case(pc[0], pc[1], true, expire, progs, s), "semaphore", "sem-"+strings.Trim(strings.Fields(x[len(x)-1])[0], "()")+"-vs-"+strings.Trim(strings.Fields(y[len(y)-1])[0], "()"))
+		}
+		if g.Tier == "quick" {
+			for i := 0; i < 500; i++ {
+				emitSem(core.Pick(g, [][2]int{{1, 2}, {2, 2}, {2, 3}, {3, 3}, {1, 3}}), core.Pick(g, shr), core.Pick(g, other), g.Intn(12), g.Intn(9), g.Intn(3), g.Intn(4) == 0)
+			}
+		} else {
+			for _, pc := range [][2]int{{1, 2}, {2, 2}, {2, 3}, {3, 3}} {
+				for _, x := range shr {
+					for _, y := range other {
+						for b := 0; b <= 11; b++ {
+							for c := 0; c <= 8; c += 2 {
+								emitSem(pc, x, y, b, c, b+c/2, (b+c)%5 == 0)
+							}
+						}
+					}
+				}
+			}
+		}
+	}
+	// family 5: a Get preempted at each of its step points (scale-out section included) by a whole
+	// capacity change; afterwards a second capacity change probes that the semaphore and the lock are free.
+	{
+		whole := [][]string{{"(scale 3)"}, {"(scale 2)"}, {"(scale 1)"}, {"close"}, {"(setcap 3)"}, {"(setcap 2)"}, {"age", "tick"}, {"(scale 0)"}}
+		probe := [][]string{{"(scale 2)", "(get 0)"}, {"(scale 1)"}, {"(scale 3)", "(get 0)"}, {"close"}, {"age", "tick"}}
+		emitPre := func(pc [2]int, h, c int, y, z []string, order int) {
+			var holder []string
+			for i := 0; i < h; i++ {
+				holder = append(holder, "(get 0)")
+			}
+			for i := 0; i < h; i++ {
+				holder = append(holder, "put")
+			}
+			progs := [][]string{holder, {"(get 0)", "put"}, y, z}
+			var s []string
+			for i := 0; i < h; i++ {
+				s = append(s, "=0!")
+			}
+			for j := 0; j < c; j++ {
+				s = append(s, "=1")
+			}
+			for range y {
+				s = append(s, "=2!")
+			}
+			tails := [][]string{
+				{"=4!", "=1!", "=1!", "=3!", "=3!", "=0!", "=4!", "=5!", "=0!", "=0!", "=3!", "=2!", "=4!", "=5!"},
+				{"=1!", "=3!", "=4!", "=0!", "=1!", "=3!", "=5!", "=0!", "=4!", "=0!", "=3!", "=2!", "=5!"},
+				{"=0!", "=4!", "=1!", "=3!", "=1!", "=3!", "=0!", "=0!", "=2!", "=4!", "=5!", "=3!"},
+			}
+			s = append(s, tails[order%len(tails)]...)
+			g.Emit(c24Case(pc[0], pc[1], true, false, progs, s), "get-preempted", "pre-"+strings.Trim(strings.Fields(y[len(y)-1])[0], "()"))
+		}
+		if g.Tier == "quick" {
+			for i := 0; i < 450; i++ {
+				pc := core.Pick(g, [][2]int{{1, 2}, {2, 2}, {2, 3}, {1, 3}, {3, 3}})
+				emitPre(pc, g.Intn(pc[1]+1), g.Intn(16), core.Pick(g, whole), core.Pick(g, probe), g.Intn(3))
+			}
+		} else {
+			for _, pc := range [][2]int{{1, 2}, {2, 3}, {1, 3}, {3, 3}} {
+				for h := 0; h <= pc[1]; h++ {
+					for c := 0; c <= 15; c++ {
+						for yi, y := range whole {
+							for zi, z := range probe {
+								emitPre(pc, h, c, y, z, c+yi+zi)
+							}
 						}
 					}
 				}
@@ -680,13 +797,13 @@ func init() {
 	core.Register(&core.Property{
 		ID: "C24",
 		Rule: "forced schedules on pools with capacity ≤ maxCap ≤ 3: 1–3 client threads (Get with 0/1/3 factory failures, Put, Put(nil)) plus sweeper, scale-in tick (+ its goroutine), SetCapacity/ScaleCapacity and Close threads; " +
-			"three schedule families: candidate-relative random picks with timeouts, absolute bursts (n atomic steps / to the end of the operation), and two-preemption races (admin op advanced a steps, a Get, second admin op advanced b steps, all finishing orders; exhaustive over a ≤ 12, b ≤ 6 in the thorough tier); " +
+			"five schedule families: candidate-relative random picks with timeouts, absolute bursts (n atomic steps / to the end of the operation), semaphore races (a shrinking capacity change parked at its wait for a slot with the semaphore taken, a second capacity change advanced b steps and a scaling-out Get advanced c steps against it, three finishing orders; exhaustive over b ≤ 11, c ≤ 8 in the thorough tier), preempted Gets (a Get stopped at each of its ≤ 15 step points, scale-out section included, while a whole capacity change runs, then a second capacity change probing the semaphore; exhaustive in the thorough tier), and two-preemption races (admin op advanced a steps, a Get, second admin op advanced b steps, all finishing orders; exhaustive over a ≤ 14, b ≤ 6 in the thorough tier); " +
 			"every step executed on a real ResourcePool through its verifStep points and on the Lean transition system; non-trivial = a trace with at least one successful Get",
 		Generate: genC24,
 		Exec:     execC24,
 		Trivial:  func(in core.Sexp, out string) bool { return !strings.Contains(out, "(got ") },
 		Assumptions: []string{
-			"Go channels, sync.Mutex, sync/atomic and util/timer.Timer.Stop are modelled (FIFO buffer, close semantics, Stop waits for a running callback), not verified",
+			"Go channels, sync.Mutex, sync2.Semaphore (one slot: Acquire blocks, TryAcquire does not, a deferred Release runs on panic), sync/atomic and util/timer.Timer.Stop are modelled (FIFO buffer, close semantics, Stop waits for a running callback), not verified",
 			"one model step = the code between two verifStep points of util/resource_pool.go; scaleInResources' two loads (capacity, baseCapacity) form one step",
 			"time is abstract: a resource is idle-expired / a scale-out is recent / a waiting Get times out when the schedule says so",
 		},
